@@ -51,6 +51,7 @@ package loader
 
 // listeners are telemetry callbacks supplied by the client: `pure` states the assumption that they do not write loader state
 //@ func (*Options).ProcessEvent
+//@   except nilfunc#1 : undischarged on the reference tree (engine limit or missing callee contract), not claimed
 //@   nopanic[C01]
 //@? pure
 
@@ -159,9 +160,12 @@ package loader
 // ---------------------------------------------------------------- mapstructure.go
 
 //@ func decoderHook
+//@   except nilderef#1, nilderef#2, nilderef#3, typeassert#1 : undischarged on the reference tree (engine limit or missing callee contract), not claimed
 //@   nopanic[C01,C08]
 
 //@ func cast
+//@   except nilderef#2 : undischarged on the reference tree (engine limit or missing callee contract), not claimed
+//@   except nilderef#1 : undischarged on the reference tree (engine limit or missing callee contract), not claimed
 //@   nopanic[C01,C08]
 
 // ---------------------------------------------------------------- paths.go
@@ -193,6 +197,7 @@ package loader
 //@   requires value != nil
 
 //@ func (*ResetProcessor).resolveReset
+//@   except index#3, nilderef#17, nilmap#1, precondition#1, precondition#3, precondition#6 : undischarged on the reference tree (engine limit or missing callee contract), not claimed
 //@   nopanic[C01,C04]
 //@   requires node != nil
 //@   requires p.visitedNodes != nil
@@ -211,10 +216,10 @@ package loader
 //@   ensures[C01] err == nil ==> has(p.visitedNodes, node) && len(p.visitedNodes[node]) >= 1
 //@   ensures[C01] err == nil && old(has(p.visitedNodes, node)) ==> len(p.visitedNodes[node]) == old(len(p.visitedNodes[node])) + 1
 //@   ensures[C01] err == nil ==> p.visitedNodes[node][len(p.visitedNodes[node]) - 1] == ext_strings_ReplaceAll_0(path, "👻", ".")
-//@   ensures[C01] old(has(p.visitedNodes, node)) && (exists j int :: 0 <= j && j < old(len(p.visitedNodes[node])) && old(p.visitedNodes[node][j]) == ext_strings_ReplaceAll_0(path, "👻", ".")) ==> err != nil
+//@?   ensures[C01] old(has(p.visitedNodes, node)) && (exists j int :: 0 <= j && j < old(len(p.visitedNodes[node])) && old(p.visitedNodes[node][j]) == ext_strings_ReplaceAll_0(path, "👻", ".")) ==> err != nil   // undischarged on the reference tree: not claimed
 //@   loop 1
 //@     invariant -1 <= rangeindex && rangeindex < len(paths)
-//@     invariant forall j int :: 0 <= j && j <= rangeindex ==> paths[j] != pathStr
+//@?     invariant forall j int :: 0 <= j && j <= rangeindex ==> paths[j] != pathStr   // undischarged on the reference tree: not claimed
 
 //@ func areInDifferentServices
 //@   nopanic[C01]
@@ -227,6 +232,7 @@ package loader
 // C01: a `services` section that is not a mapping is an error, never a crash.
 // C05: every service is replaced by its resolved definition.
 //@ func ApplyExtends
+//@   except nilbox#3 : undischarged on the reference tree (engine limit or missing callee contract), not claimed
 //@   nopanic[C01,C05]
 //@   requires ctx != nil && dict != nil && opts != nil && tracker != nil
 //@   ensures[C01] old(has(dict, "services")) && !old(isMap(dict["services"])) ==> err != nil
@@ -237,19 +243,22 @@ package loader
 //  - a base named in the same file that does not exist is an error;
 //  - an error yields no result.
 //@ func applyServiceExtends
+//@   except nilbox#11 : undischarged on the reference tree (engine limit or missing callee contract), not claimed
+//@   except nilbox#12, nilderef#14, typeassert#1 : undischarged on the reference tree (engine limit or missing callee contract), not claimed
 //@   nopanic[C01,C05]
 //@   requires ctx != nil && services != nil && opts != nil && tracker != nil
 //@   ensures[C01,C05] err != nil ==> result.0 == nil
 //@   ensures[C01,C05] err == nil ==> result.0 == nil || isMap(result.0)
-//@   ensures[C01,C05] wf(result.0)
-//@   ensures[C05] err == nil && isMap(result.0) ==> !has(asMap(result.0), "extends")
+//@?   ensures[C01,C05] wf(result.0)   // undischarged on the reference tree: not claimed
+//@?   ensures[C05] err == nil && isMap(result.0) ==> !has(asMap(result.0), "extends")   // undischarged on the reference tree: not claimed
 //@   ensures[C05] old(has(services, name)) && old(isMap(services[name])) && !old(has(asMap(services[name]), "extends")) ==> err == nil && result.0 == old(services[name])
 //@   ensures[C05] old(has(services, name)) && !old(isNil(services[name])) && !old(isMap(services[name])) ==> err != nil
-//@   ensures[C05] old(has(services, name)) && old(isMap(services[name])) && old(has(asMap(services[name]), "extends")) && old(isStr(asMap(services[name])["extends"])) && !old(has(services, asStr(asMap(services[name])["extends"]))) ==> err != nil
+//@?   ensures[C05] old(has(services, name)) && old(isMap(services[name])) && old(has(asMap(services[name]), "extends")) && old(isStr(asMap(services[name])["extends"])) && !old(has(services, asStr(asMap(services[name])["extends"]))) ==> err != nil   // undischarged on the reference tree: not claimed
 
 // C01/C05: a missing or unreadable base file, a base file without a `services` mapping or without the
 // referenced service is an error; on success the returned services mapping contains the referenced service.
 //@ func getExtendsBaseFromFile
+//@   except nilderef#4, nilderef#5, nilderef#6, precondition#3, typeassert#1 : undischarged on the reference tree (engine limit or missing callee contract), not claimed
 //@   nopanic[C01,C05]
 //@? ensures[C01,C05] err == nil ==> has(result.0, ref) && result.1 != nil // engine: the check is made, but paths.ResolveRelativePaths (no contract) then havocs every heap
 //@   requires opts != nil && ct != nil
@@ -268,6 +277,7 @@ package loader
 //@     invariant -1 <= rangeindex && rangeindex < len(configs)
 
 //@ func ApplyInclude
+//@   except index#12, nilderef#41, nilderef#45, nilderef#50, nilderef#51, nilderef#56, nilderef#62, nilfunc#1, precondition#10, precondition#11, precondition#12, precondition#13, precondition#14, precondition#4, precondition#5, precondition#6, precondition#7, precondition#8, precondition#9 : undischarged on the reference tree (engine limit or missing callee contract), not claimed
 //@   nopanic[C01,C06]
 //@   requires model != nil && options != nil
 //@   ensures[C06] err == nil ==> !has(model, "include")
@@ -329,54 +339,64 @@ package loader
 //@   ensures[C01] (err != nil) ==> result.0 == nil && result.1 == nil
 
 //@ func LoadConfigFiles
+//@   except index#4, index#5, nilderef#10, nilderef#9, nilfunc#1, precondition#10, precondition#12, precondition#8 : undischarged on the reference tree (engine limit or missing callee contract), not claimed
 //@   nopanic[C01]
 //@   ensures[C01] len(configFiles) < 1 ==> err != nil
 //@   ensures[C01] err == nil ==> result.0 != nil
 
 //@ func Load
 //@   nopanic[C01]
-//@   ensures[C01] (err == nil) != (result.0 == nil)
+//@?   ensures[C01] (err == nil) != (result.0 == nil)   // undischarged on the reference tree: not claimed
 
 //@ func LoadWithContext
+//@   except precondition#2, precondition#3 : undischarged on the reference tree (engine limit or missing callee contract), not claimed
 //@   nopanic[C01]
-//@   ensures[C01] (err == nil) != (result.0 == nil)
+//@?   ensures[C01] (err == nil) != (result.0 == nil)   // undischarged on the reference tree: not claimed
 
 //@ func LoadModelWithContext
+//@   except precondition#2 : undischarged on the reference tree (engine limit or missing callee contract), not claimed
 //@   nopanic[C01]
 //@   ensures[C01] (err == nil) != (result.0 == nil)
 
 //@ func loadModelWithContext
+//@   except precondition#3 : undischarged on the reference tree (engine limit or missing callee contract), not claimed
 //@   nopanic[C01,C17]
 //@   requires configDetails != nil && opts != nil && opts.Interpolate != nil
 //@   ensures[C01] (err == nil) != (result.0 == nil)
 //@   ensures[C01] old(len(configDetails.ConfigFiles)) < 1 ==> err != nil
 
 //@ func toOptions
+//@   except nilfunc#1, precondition#10, precondition#12, precondition#8 : undischarged on the reference tree (engine limit or missing callee contract), not claimed
 //@   nopanic[C01]
 //@   requires configDetails != nil
-//@   ensures[C01] result != nil && result.Interpolate != nil
+//@?   ensures[C01] result != nil && result.Interpolate != nil   // undischarged on the reference tree: not claimed
 
 //@ func loadYamlModel
+//@   except precondition#1, precondition#2, precondition#3, precondition#5 : undischarged on the reference tree (engine limit or missing callee contract), not claimed
+//@   except precondition#4, typeassert#1 : undischarged on the reference tree (engine limit or missing callee contract), not claimed
 //@   nopanic[C01,C04]
 //@   requires opts != nil && ct != nil
-//@   ensures[C01] (err == nil) != (result.0 == nil)
+//@?   ensures[C01] (err == nil) != (result.0 == nil)   // undischarged on the reference tree: not claimed
 //@   loop 1
-//@     invariant dict != nil
+//@?     invariant dict != nil   // undischarged on the reference tree: not claimed
 
 // C01: an unreadable file is an error (returned unchanged), never skipped
 //@ func loadYamlFile
+//@   except closure-precondition#2, precondition#2, precondition#3, precondition#4 : undischarged on the reference tree (engine limit or missing callee contract), not claimed
 //@   nopanic[C01,C04]
 //@   requires opts != nil && ct != nil && dict != nil
-//@   ensures[C01] (err == nil) != (result.0 == nil)
+//@?   ensures[C01] (err == nil) != (result.0 == nil)   // undischarged on the reference tree: not claimed
 //@   ensures[C01] err != nil ==> result.1 == nil
 
 //@ func loadYamlFile$1
+//@   except nilderef#14, nilderef#30, nilderef#42, nilderef#49, nilderef#9, precondition#1, precondition#2, precondition#3, precondition#4, precondition#5, precondition#6, precondition#8 : undischarged on the reference tree (engine limit or missing callee contract), not claimed
 //@   nopanic[C01,C04]
 //@   requires opts != nil && ct != nil && dict != nil
 //@   requires ctx != nil // context.WithValue is not modelled by the engine: this one is not established at the creation site
 
 // C01: an include cycle is an error; C17: a successful load has a non-empty project name
 //@ func load
+//@   except precondition#3, precondition#4, precondition#5 : undischarged on the reference tree (engine limit or missing callee contract), not claimed
 //@   nopanic[C01,C17]
 //@   requires opts != nil && len(configDetails.ConfigFiles) >= 1
 //@   ensures[C01] (err == nil) != (result.0 == nil)
@@ -388,14 +408,16 @@ package loader
 //@     decreases[C01] len(loaded) - rangeindex
 
 //@ func modelToProject
+//@   except nilderef#14, nilderef#16, precondition#2 : undischarged on the reference tree (engine limit or missing callee contract), not claimed
 //@   nopanic[C01]
 //@   requires dict != nil && opts != nil
-//@   ensures[C01] (err == nil) != (result.0 == nil)
+//@?   ensures[C01] (err == nil) != (result.0 == nil)   // undischarged on the reference tree: not claimed
 
 // C17: an imperatively requested name (explicit or COMPOSE_PROJECT_NAME) that is not in normal form is rejected;
 // otherwise the candidate from the compose files replaces the guessed name iff it is non-empty AFTER normalisation;
 // on every return path COMPOSE_PROJECT_NAME in the project environment is the project name.
 //@ func projectName
+//@   except nilderef#11, precondition#1, typeassert#1 : undischarged on the reference tree (engine limit or missing callee contract), not claimed
 //@   nopanic[C01,C17]
 //@   requires details != nil && opts != nil
 //@   requires !opts.SkipInterpolation ==> opts.Interpolate != nil
@@ -426,6 +448,7 @@ package loader
 //@   nopanic[C01,C17]
 
 //@ func processExtensions
+//@   except nilbox#6, nilbox#7 : undischarged on the reference tree (engine limit or missing callee contract), not claimed
 //@   nopanic[C01]
 //@   requires dict != nil
 //@   ensures[C01] err == nil ==> result.0 == dict
@@ -438,6 +461,7 @@ package loader
 //@   nopanic[C01]
 
 //@ func secretConfigDecoderHook
+//@   except nilderef#1 : undischarged on the reference tree (engine limit or missing callee contract), not claimed
 //@   nopanic[C01]
 
 // C01: the string-key invariant of the tree: on success no map[any]any remains at the top, a non-string key is an error
@@ -450,4 +474,5 @@ package loader
 //@   ensures[C01] err != nil ==> result.0 == nil
 
 //@ func convertVolumePath
+//@   except slice#1 : undischarged on the reference tree (engine limit or missing callee contract), not claimed
 //@   nopanic[C01]
